@@ -1555,6 +1555,18 @@ impl PeerConnection {
                             break;
                         }
                     }
+                    // a=setup may also be given once at session level (RFC 4145
+                    // section 4, RFC 5763 section 5); it then applies to every section.
+                    if new_role.is_none()
+                        && let Some(val) = desc
+                            .session
+                            .attributes
+                            .iter()
+                            .find(|attr| attr.key == "setup")
+                            .and_then(|attr| attr.value.as_deref())
+                    {
+                        new_role = Some(!matches!(val, "active" | "actpass"));
+                    }
                 }
                 if let Some(r) = new_role {
                     let _ = self.inner.dtls_role.send(Some(r));
